@@ -9,7 +9,7 @@ Inductive stop := StFail | StSwitch (p : string) | StRaise (k : string).
 Inductive rstate :=
 | RRun (s : store) (evs : list event)
 | RStop (s : store) (evs : list event) (w : stop)     (* fail_step / switch_phase / raise_ reached *)
-| RCrash (user : bool).                               (* a Python exception escaped (user = from a user function) *)
+| RCrash (user : bool) (evs : list event).            (* a Python exception escaped (user = from a user function) *)
 
 Section Sched.
   Variable F : string -> list val -> list (string * val) -> option (list val).
@@ -23,8 +23,8 @@ Section Sched.
         | OFail => RStop s evs StFail
         | OSwitch p => RStop s evs (StSwitch p)
         | ORaise k => RStop s evs (StRaise k)
-        | OUserExn => RCrash true
-        | OCrash => RCrash false
+        | OUserExn => RCrash true evs
+        | OCrash => RCrash false evs
         end
     | _ => S
     end.
@@ -33,7 +33,7 @@ Section Sched.
 
   (* a schedule given as statement ids (positions in stmts) *)
   Definition step_id (stmts : list stmt) (i : nat) (S : rstate) : rstate :=
-    match nth_error stmts i with Some st => step st S | None => RCrash false end.
+    match nth_error stmts i with Some st => step st S | None => RCrash false [] end.
   Definition run_ids (stmts : list stmt) (ids : list nat) (S : rstate) : rstate :=
     fold_left (fun S i => step_id stmts i S) ids S.
 End Sched.
@@ -43,6 +43,6 @@ Definition req (a b : rstate) : Prop :=
   match a, b with
   | RRun s e, RRun s' e' => (forall x, s x = s' x) /\ e = e'
   | RStop s e w, RStop s' e' w' => (forall x, s x = s' x) /\ e = e' /\ w = w'
-  | RCrash u, RCrash u' => True      (* which exception escapes first may depend on the schedule *)
+  | RCrash u e, RCrash u' e' => e = e'   (* which exception escapes first may depend on the schedule *)
   | _, _ => False
   end.
